@@ -4,6 +4,7 @@
 //!          code only: the arm is cancelled when another arm wins), 2 cqueue::scope with looping arms
 //! cfg[1] = owner fault: 0 none, 1 panics in the scope body after spawning, 2 is cancelled
 //! cfg[2] = delay of the cancel in ns / for kind 1: delay after which the competing arm fires
+//! cfg[4] = k > 0 (kind 0): the owner calls ScopedJoinHandle::join on child k-1 inside the body
 //! actor 0 = owner (thread or coroutine), ops unused
 //! role 1 = child: ops = steps; role 2 = grandchild of the previous child (nested scope)
 use crate::case::{Actor, Case, Op, Outcome};
@@ -93,10 +94,12 @@ fn run_scope(case: &Case, o: &Obs) {
             }
         }
     }
+    let explicit = case.cfg(4);
     may::coroutine::scope(|s| {
+        let mut handles = vec![];
         for (i, a, grand) in &kids {
             let fr = &frame;
-            unsafe {
+            let h = unsafe {
                 s.spawn(move || {
                     if grand.is_empty() {
                         child_body(o, fr, &a.ops, *i);
@@ -109,7 +112,15 @@ fn run_scope(case: &Case, o: &Obs) {
                             child_body(o, fr, &a.ops, *i);
                         });
                     }
-                });
+                })
+            };
+            handles.push(Some(h));
+        }
+        // the owner joins one of its children itself inside the body (a cancel can hit it there)
+        if explicit > 0 && !handles.is_empty() {
+            let k = (explicit as usize - 1) % handles.len();
+            if let Some(h) = handles[k].take() {
+                h.join();
             }
         }
         if fault == 1 {
@@ -286,13 +297,13 @@ pub fn strategy(g: &GenCfg) -> BoxedStrategy<Case> {
             prop_oneof![3 => Just(Op(YIELD, 0, 0)), 3 => (1u32..600_000).prop_map(|ns| Op(SLEEP, ns, 0)), 1 => (1u32..2_000_000).prop_map(|ns| Op(PARKTO, ns, 0))].boxed()
         }
     };
-    (prop_oneof![4 => Just(0i64), 2 => Just(1i64), 2 => Just(2i64)], prop_oneof![2 => Just(0i64), 2 => Just(1i64), 3 => Just(2i64)], 0i64..1_500_000, 0i64..5, 0u8..2)
-        .prop_flat_map(move |(kind, fault, delay, polls, octx)| {
+    (prop_oneof![4 => Just(0i64), 2 => Just(1i64), 2 => Just(2i64)], prop_oneof![2 => Just(0i64), 2 => Just(1i64), 3 => Just(2i64)], 0i64..1_500_000, (0i64..5, prop_oneof![2 => Just(0i64), 1 => 1i64..5]), 0u8..2)
+        .prop_flat_map(move |(kind, fault, delay, (polls, explicit), octx)| {
             let allow_panic = kind == 0 && fault == 0;
             let child = (proptest::collection::vec(step(allow_panic), 1..=6), proptest::collection::vec(proptest::collection::vec(step(false), 1..=4), 0..=2), any::<bool>());
-            (Just((kind, fault, delay, polls, octx)), proptest::collection::vec(child, 1..=4), gen::config(&g2), gen::schedule(&g2, false))
+            (Just((kind, fault, delay, polls, explicit, octx)), proptest::collection::vec(child, 1..=4), gen::config(&g2), gen::schedule(&g2, false))
         })
-        .prop_map(|((kind, fault, delay, polls, octx), kids, (workers, pool, feat), sched)| {
+        .prop_map(|((kind, fault, delay, polls, explicit, octx), kids, (workers, pool, feat), sched)| {
             let mut actors = vec![Actor { ctx: octx, role: 0, ops: vec![] }];
             for (mut steps, grand, nest) in kids {
                 // nothing runs after a panic
@@ -308,7 +319,7 @@ pub fn strategy(g: &GenCfg) -> BoxedStrategy<Case> {
             }
             // the select form cancels an arm: the owner itself has no fault there
             let fault = if kind == 1 { 0 } else { fault };
-            Case { fam: "scope".into(), workers, pool, feat, cfg: vec![kind, fault, delay, polls], actors, sched, weak: 0 }
+            Case { fam: "scope".into(), workers, pool, feat, cfg: vec![kind, fault, delay, polls, if kind == 0 { explicit } else { 0 }], actors, sched, weak: 0 }
         })
         .boxed()
 }
